@@ -600,7 +600,7 @@ impl<'a> Blitter for ShaderBlendBlitter<'a> {
         let dest_row = (y - self.y) * self.dest_stride;
         let count = (x2 - x1) as usize;
         self.shader.shade_span(x1, y, &mut self.tmp[..], count);
-        (self.blend_fn)(&self.tmp[..],
+        (self.blend_fn)(&self.tmp[..count],
                         &mut self.dest[(dest_row + x1 - self.x) as usize..])
     }
 }
